@@ -201,6 +201,10 @@ func VerifLifecycleInitResume() {
 		// reading resumed right after the stored position, nothing read was dropped
 		for k, i := range w.src.emitted {
 			verifAssert(i == stored+1+k, "c03-resumed-run-skipped-a-record")
+		}
+		// what reached the destination was handled and acknowledged; a record read
+		// but not yet handed on when the stop arrived is read again next time
+		for _, i := range w.dests["dest0"].written {
 			verifAssert(w.handledLocked(i), "c03-record-after-stored-position-lost")
 		}
 		w.mu.Unlock()
